@@ -403,6 +403,97 @@ func runTcpHighNum(num int, seed int) string {
 	return "ok"
 }
 
+// runTcpEarlyNeg: a peer negotiates the block size early (RFC 7959 section 2.4: a GET with Block2 = (SZX, 0, 0); likewise a
+// PUT whose only block is (SZX, 0, 0)) with every wire encoding of the option value: the value 0 = (SZX16, block 0, last)
+// is the EMPTY option value in its minimal encoding, and may come zero-padded to one, two or three bytes; SZX 1..7 are
+// the one-byte values 0x01..0x07.  The server (block size 1024, bodies of 16..1023 bytes, i.e. less than its own block)
+// must answer in blocks no larger than asked for: a first block of at most that size, a prefix of the body, flagged
+// `more` unless it is the whole body.
+func runTcpEarlyNeg(enc []byte, bt message.OptionID, bodyLen int, seed int) string {
+	body := genBody(seed, 0, bodyLen)
+	srv := tcp.NewServer(
+		options.WithErrors(func(error) {}),
+		options.WithMessagePool(pool.New(64, 2048)),
+		options.WithPeriodicRunner(func(func(now time.Time) bool) {}),
+		options.WithBlockwise(true, blockwise.SZX1024, 5*time.Second),
+		options.WithMaxMessageSize(2048),
+		options.WithHandlerFunc(func(w *responsewriter.ResponseWriter[*tcpclient.Conn], r *pool.Message) {
+			code := codes.Content
+			if r.Code() != codes.GET {
+				code = codes.Changed
+			}
+			_ = w.SetResponse(code, message.TextPlain, bytes.NewReader(body))
+		}),
+	)
+	l := mem.NewListener()
+	served := make(chan struct{})
+	go func() { _ = srv.Serve(l); close(served) }()
+	a, b := net.Pipe()
+	peer := mem.NewTCPPeer(b)
+	defer func() {
+		peer.Close()
+		srv.Stop()
+		<-served
+		synctest.Wait()
+	}()
+	l.Push(&mem.AddrConn{Conn: a, Local: glueAddr("server"), Remote: glueAddr("peer")})
+	synctest.Wait()
+	_ = peer.Write(csmBlockwise())
+	synctest.Wait()
+	peer.TakeFrames()
+	q := pool.NewMessage(context.Background())
+	q.SetToken(message.Token{0x77, byte(len(enc))})
+	_ = q.SetPath("/c04/early")
+	if bt == message.Block2 {
+		q.SetCode(codes.GET)
+	} else {
+		q.SetCode(codes.PUT)
+		q.SetContentFormat(message.TextPlain)
+		q.SetBody(bytes.NewReader(genBody(seed+1, 0, 8)))
+	}
+	q.SetOptionBytes(bt, enc)
+	_ = peer.Write(tcpFrame(q))
+	synctest.Wait()
+	asked := 0
+	if len(enc) > 0 {
+		asked = int(enc[len(enc)-1] & 7)
+	}
+	for _, e := range enc[:max(0, len(enc)-1)] {
+		if e != 0 {
+			return "err-scenario"
+		}
+	}
+	unit := 16 << asked
+	if asked == 7 {
+		unit = 1024 // BERT: multiples of 1024; the bodies here are smaller than one
+	}
+	var resp *pool.Message
+	for _, fr := range peer.TakeFrames() {
+		if r := tcpParse(fr); r != nil && (r.Code() == codes.Content || r.Code() == codes.Changed) {
+			resp = r
+		}
+	}
+	if resp == nil {
+		return "err-no-response"
+	}
+	got := readBody(resp)
+	blk, errB := resp.GetOptionUint32(message.Block2)
+	switch {
+	case len(got) > unit:
+		if errB != nil {
+			return fmt.Sprintf("violates-asked-for-blocks-of-%d-bytes-got-%d-bytes-of-%d-without-Block2", unit, len(got), bodyLen)
+		}
+		return fmt.Sprintf("violates-asked-for-blocks-of-%d-bytes-got-a-block-of-%d-bytes-szx-%d", unit, len(got), blk&7)
+	case errB == nil && int(blk&7) > asked:
+		return fmt.Sprintf("violates-asked-for-szx-%d-got-szx-%d", asked, blk&7)
+	case len(got) > bodyLen || !bytes.Equal(got, body[:len(got)]):
+		return fmt.Sprintf("violates-first-block-is-not-a-prefix-of-the-body-%d-bytes-of-%d", len(got), bodyLen)
+	case len(got) < bodyLen && (errB != nil || blk&8 == 0 || blk>>4 != 0):
+		return fmt.Sprintf("violates-%d-bytes-of-%d-presented-as-the-whole-body", len(got), bodyLen)
+	}
+	return "ok"
+}
+
 func TestC04TcpServer(t *testing.T) {
 	outp := os.Getenv("VERIF_OUT")
 	if outp == "" {
@@ -432,6 +523,27 @@ func TestC04TcpServer(t *testing.T) {
 			res = runTcpHighNum(num, seed+num)
 		})
 		fmt.Fprintf(w, "tcpsrv %s result=%s\n", name, res)
+	}
+	encs := [][]byte{{}, {0}, {0, 0}, {0, 0, 0}, {1}, {2}, {3}, {4}, {5}, {6}, {7}, {0, 2}, {0, 0, 1}}
+	for _, bt := range []message.OptionID{message.Block2, message.Block1} {
+		for _, enc := range encs {
+			for _, bodyLen := range []int{16, 17, 40, 700, 1023} {
+				name := fmt.Sprintf("earlyneg block%d %d:%x %d", map[message.OptionID]int{message.Block1: 1, message.Block2: 2}[bt], len(enc), enc, bodyLen)
+				if only != "" && name != only {
+					continue
+				}
+				res := "err"
+				synctest.Test(t, func(*testing.T) {
+					defer func() {
+						if r := recover(); r != nil {
+							res = "violates-panic-" + strings.ReplaceAll(fmt.Sprint(r), " ", "_")
+						}
+					}()
+					res = runTcpEarlyNeg(enc, bt, bodyLen, seed+bodyLen+len(enc))
+				})
+				fmt.Fprintf(w, "tcpsrv %s result=%s\n", name, res)
+			}
+		}
 	}
 	for _, dir := range []string{"up", "down"} {
 		for _, nconn := range []int{2, 3} {
